@@ -6,4 +6,4 @@ Extraction Language OCaml.
 Extraction "../ocaml/C11/gen_c11.ml"
   cs_mem dmatch_re named_ascii
   rt_new addRange sortRanges compactRanges mergeRanges subtractRanges intersectRanges complementRanges rt_match rmem
-  named_tok parse compile omatch xmatch_tok run_re run_fixed xmatch_fixed_tok re_of_tok sw_faithful sw_fixed.
+  named_tok parse compile omatch xmatch_tok run_re xsearch_tok run_fixed xmatch_fixed_tok re_of_tok sw_faithful sw_fixed.
